@@ -734,7 +734,10 @@ class SsbGraphMinimizer:
                     in_edges = v.in_edges()
                     out_edges = v.out_edges()
                     if len(in_edges) == 0:
-                        vs_to_delete.add(v)
+                        # (the label at the start of a routine can still be the target of a jump in another routine,
+                        # and it is the entry point: the vertex after it is not necessarily the operation it leads to)
+                        if not v["op"].referenced_from_other_routine and v.index != 0:
+                            vs_to_delete.add(v)
                     elif len(in_edges) == 1:
                         assert len(out_edges) == 1
                         if (
